@@ -566,6 +566,12 @@ def execute(plan):
                         if not d.get('key') and d['name'].lower() not in
                         {x.lower() for x in supplied}]
                     pl += absent[:1]
+                    if vr.random() < 0.4:
+                        # ... or a key property that is not supplied: keys
+                        # cannot be modified, the call leaves it alone
+                        pl += [RM.all_props(cdesc['name'])[kn]['name']
+                               for kn in RM.key_names(cdesc['name'])
+                               if kn not in {x.lower() for x in supplied}][:1]
             if plmode in ('all', 'subset'):
                 # CIM names are case insensitive: the PropertyList may spell
                 # a name differently than the instance does
@@ -620,6 +626,10 @@ def execute(plan):
                     p = sup[n]
                     mrec['props'][n] = (p.type, p.is_array,
                                         store.canon_value(p.value))
+                elif d.get('key'):
+                    # a key named in PropertyList but not supplied: keys
+                    # cannot be modified, it keeps its value
+                    M.bump('modify_pl_names_absent_key')
                 else:
                     mrec['props'][n] = (d['type'], bool(d.get('array')),
                                         None)
